@@ -27,7 +27,7 @@ from frappy.dynamic import Pinata
 from frappy.errors import ConfigError, NoSuchModuleError, NoSuchParameterError
 from frappy.lib import get_class
 from frappy.version import get_version
-from frappy.modules import Module
+from frappy.modules import Attached, Module
 
 
 class SecNode:
@@ -94,6 +94,12 @@ class SecNode:
             if not modobj.initModuleDone:
                 self.errors.append(f'{modobj.initModule.__qualname__} was not '
                                    f'called, probably missing super call')
+            # resolve all attached modules now: a missing or wrongly typed
+            # attached module is a configuration error, even when the
+            # attribute is not used during initialization
+            for pname, pobj in modobj.propertyDict.items():
+                if isinstance(pobj, Attached):
+                    getattr(modobj, pname)
         except Exception as e:
             if self.traceback_counter == 0:
                 self.log.exception(traceback.format_exc())
